@@ -605,6 +605,7 @@ var c17Essential = [][2]string{{"collation", "q"}, {"collation", "s"}, {"collati
 	{"alpha", "q"}, {"unsigned", "i"}, {"compound", "i"}, {"float", "q"}, {"signed", "i"}, {"compound", "q"}}
 
 func TestC17(t *testing.T) {
+	noAliasing = true // the aliasing bookkeeping keeps slices alive: harness memory must not enter the measurement
 	var caseNo atomic.Int32
 	stats.Property = "C17"
 	replayRegressions(t, "C17")
@@ -626,7 +627,12 @@ func TestC17(t *testing.T) {
 			kind = drawKind(rt, append([]string{"collation", "collation"}, allFamilies...))
 			mix = pick(rt, []string{"q", "s", "s", "i", "o", "c", "c", "w", "m", "f", "f"}, "mix")
 		}
-		u := drawUniverse(rt, kind, nil)
+		var profiles []string
+		if kind.Family() != "collation" {
+			// no giant keys here: 8N operations on 64 KiB keys take minutes and measure memcmp, not retention
+			profiles = []string{"dense", "dense", "dense", "fan", "fan", "deep", "nul"}
+		}
+		u := drawUniverse(rt, kind, profiles)
 		want := pick(rt, []int{50, 200, 600, 2000}, "nkeys")
 		m := NewModel(kind)
 		eng := NewEngine(&Config{ExcludeKF: true}, []Kind{kind})
@@ -673,6 +679,7 @@ func TestC17(t *testing.T) {
 
 func init() {
 	customReplays["C17"] = func(tr *Trace) error {
+		noAliasing = true
 		k, err := ParseKind(tr.Kinds[0])
 		if err != nil {
 			return err
